@@ -1,4 +1,7 @@
-/* wrap_alloc.c — link-time allocation monitor (-Wl,--wrap=malloc,calloc,realloc,free).
+/* wrap_alloc.c — link-time allocation monitor (-Wl,--wrap=malloc,calloc,realloc,free and the other
+ * allocation entry points of libc: aligned_alloc, posix_memalign, memalign, valloc, pvalloc, reallocarray, strdup,
+ * strndup — the library uses none of these today; they are wrapped so that a change which moves an allocation to one
+ * of them stays inside the monitor and the fault injector).
  * While armed: counts allocation calls, records each live block with its call
  * site, and can make exactly the k-th allocation call return NULL. */
 #include "wrap_alloc.h"
@@ -101,6 +104,79 @@ void *__wrap_realloc(void *old, size_t n) {
     } else if (was) {
         wa_track(old, 0, site);
     }
+    return p;
+}
+void *__real_aligned_alloc(size_t, size_t);
+int __real_posix_memalign(void **, size_t, size_t);
+void *__real_memalign(size_t, size_t);
+void *__real_valloc(size_t);
+void *__real_pvalloc(size_t);
+void *__real_reallocarray(void *, size_t, size_t);
+char *__real_strdup(const char *);
+char *__real_strndup(const char *, size_t);
+void *__wrap_aligned_alloc(size_t al, size_t n) {
+    void *site = __builtin_return_address(0);
+    if (wa_enter(n, site)) return NULL;
+    void *p = __real_aligned_alloc(al, n);
+    if (wa_armed) wa_track(p, n, site);
+    return p;
+}
+int __wrap_posix_memalign(void **out, size_t al, size_t n) {
+    void *site = __builtin_return_address(0);
+    if (wa_enter(n, site)) return 12; /* ENOMEM */
+    int rc = __real_posix_memalign(out, al, n);
+    if (wa_armed && rc == 0) wa_track(*out, n, site);
+    return rc;
+}
+void *__wrap_memalign(size_t al, size_t n) {
+    void *site = __builtin_return_address(0);
+    if (wa_enter(n, site)) return NULL;
+    void *p = __real_memalign(al, n);
+    if (wa_armed) wa_track(p, n, site);
+    return p;
+}
+void *__wrap_valloc(size_t n) {
+    void *site = __builtin_return_address(0);
+    if (wa_enter(n, site)) return NULL;
+    void *p = __real_valloc(n);
+    if (wa_armed) wa_track(p, n, site);
+    return p;
+}
+void *__wrap_pvalloc(size_t n) {
+    void *site = __builtin_return_address(0);
+    if (wa_enter(n, site)) return NULL;
+    void *p = __real_pvalloc(n);
+    if (wa_armed) wa_track(p, n, site);
+    return p;
+}
+void *__wrap_reallocarray(void *old, size_t a, size_t b) {
+    void *site = __builtin_return_address(0);
+    size_t n = a * b;
+    if (b && n / b != a) n = (size_t)-1;
+    if (wa_enter(n, site)) return NULL;
+    int was = wa_untrack(old);
+    void *p = __real_reallocarray(old, a, b);
+    if (p) {
+        if (wa_armed || was) wa_track(p, n, site);
+    } else if (was) {
+        wa_track(old, 0, site);
+    }
+    return p;
+}
+char *__wrap_strdup(const char *s) {
+    void *site = __builtin_return_address(0);
+    size_t n = strlen(s) + 1;
+    if (wa_enter(n, site)) return NULL;
+    char *p = __real_strdup(s);
+    if (wa_armed) wa_track(p, n, site);
+    return p;
+}
+char *__wrap_strndup(const char *s, size_t m) {
+    void *site = __builtin_return_address(0);
+    size_t n = strnlen(s, m) + 1;
+    if (wa_enter(n, site)) return NULL;
+    char *p = __real_strndup(s, m);
+    if (wa_armed) wa_track(p, n, site);
     return p;
 }
 void __wrap_free(void *p) {
